@@ -639,5 +639,73 @@ impl StreamData {
 //@@ end
 }
 
+/// `after_id != StreamId::max()` (RT site): `>` is passed down as the all-ones id (stream.rs: `StreamId::max()` = new(u64::MAX, u64::MAX))
+#[verifier::external_body]
+pub fn sid_is_max(a: StreamId) -> (r: bool)
+    ensures r == (a.packed == u128::MAX),
+{ unimplemented!() }
+/// `group.get_pending_range(None, None, usize::MAX, Some(consumer_name)).into_iter().map(|p| p.id).filter(|id| *id > after_id).collect()`
+/// (RXPR site; get_pending_range -> PendingEntryList::get_range builds a boxed iterator chain): ASSUMED — takes the group by
+/// shared reference (so it changes nothing) and returns ids that are pending for that consumer and greater than `after_id`
+#[verifier::external_body]
+fn verif_history_ids(group: &ConsumerGroup, consumer_name: &str, after_id: StreamId) -> (r: Vec<StreamId>)
+    ensures forall|k: int| 0 <= k < r@.len() ==> group.pending.ids().contains_key(#[trigger] r@[k]) && group.pending.ids()[r@[k]].consumer == string_of(consumer_name@) && r@[k].packed > after_id.packed,
+{ unimplemented!() }
+/// `ids.sort()` (RXPR site): ASSUMED to permute
+#[verifier::external_body]
+pub fn verif_sort_ids(ids: &mut Vec<StreamId>)
+    ensures final(ids)@.to_multiset() == old(ids)@.to_multiset(),
+{ unimplemented!() }
+/// `ids.iter().filter_map(|id| data.entries.binary_search_by(|e| e.id.cmp(id)).ok().map(|idx| data.entries[idx].clone())).collect()`
+/// (RXPR site): ASSUMED — the stream entries that carry one of the given ids
+#[verifier::external_body]
+fn verif_lookup_entries(data: &StreamData, ids: &Vec<StreamId>) -> (r: Vec<StreamEntry>)
+    ensures forall|k: int| 0 <= k < r@.len() ==> ids@.contains((#[trigger] r@[k]).id) && data.entries@.contains(r@[k]),
+{ unimplemented!() }
+
+//@@ unit stream_read_group stmts src/storage/stream.rs Stream::read_group "let data = self.data.lock().unwrap();"
+//@@   rewrite RT "let data = self.data.lock().unwrap();" ""
+//@@   rewrite RT "drop(data);" ""
+//@@   rewrite RT "after_id != StreamId::max()" "!sid_is_max(after_id)"
+//@@   rewrite RXPR "group .get_pending_range(None, None, usize::MAX, Some(consumer_name)) .into_iter() .map(|p| p.id) .filter(|id| *id > after_id) .collect()" "verif_history_ids(&*group, consumer_name, after_id)"
+//@@   rewrite RXPR "ids.sort()" "verif_sort_ids(&mut ids)"
+//@@   rewrite RXPR "ids .iter() .filter_map(|id| { data.entries.binary_search_by(|e| e.id.cmp(id)) .ok() .map(|idx| data.entries[idx].clone()) }) .collect()" "verif_lookup_entries(data, &ids)"
+//@@   rewrite RT "entries.clone()" "verif_clone_entries(&entries)"
+//@@   rewrite RT "entries.last()" "verif_last(&entries)"
+//@@   at "if !noack && !entries.is_empty()"
+//@@|     let ghost es = data.entries@; let ghost cur = old(group).last_delivered_id;
+//@@|     proof {
+//@@|         let s = choose|s: int| #[trigger] range_after_is(es, cur, maxc_of(count, es.len()), entries@, s);
+//@@|         assert forall|i: int, j: int| 0 <= i < j < entries@.len() implies ids_of(entries@)[i] != ids_of(entries@)[j] by { assert(entries@[i] == es[s + i]); assert(entries@[j] == es[s + j]); }
+//@@|         if entries@.len() > 0 { assert(entries@[entries@.len() - 1] == es[s + entries@.len() - 1]); }
+//@@|     }
+fn read_group(data: &StreamData, group: &mut ConsumerGroup, consumer_name: &str, after_id: StreamId, count: Option<usize>, noack: bool) -> (r: Result<Vec<StreamEntry>, String>)
+    requires old(group).gwf(), sorted_ids(data.entries@),
+        // machine arithmetic: the counters do not wrap
+        old(group).consumer_count < usize::MAX, old(group).total_pending + data.entries@.len() <= usize::MAX,
+        owned(old(group).pending.idx(), string_of(consumer_name@)) + data.entries@.len() <= usize::MAX,
+    ensures r is Ok, final(group).gwf(),
+        // C16: a read with an explicit id delivers nothing new — the group (cursor, pending set, counters, consumers) is untouched
+        after_id.packed != u128::MAX ==> *final(group) == *old(group),
+        after_id.packed == u128::MAX ==> ({
+            let es = data.entries@; let cur = old(group).last_delivered_id; let out = r->Ok_0@;
+            // C16: a read with > returns the next entries after the group's cursor, in id order, skipping none, at most COUNT ...
+            &&& exists|s: int| #[trigger] range_after_is(es, cur, maxc_of(count, es.len()), out, s)
+            // ... and moves the cursor to the last entry returned, with or without NOACK, so that no later read returns it again
+            &&& (out.len() > 0 ==> final(group).last_delivered_id == out[out.len() - 1].id)
+            &&& (out.len() == 0 ==> *final(group) == *old(group))
+            // NOACK: nothing becomes pending, no counter and no consumer changes
+            &&& (noack ==> final(group).pending == old(group).pending && final(group).consumers == old(group).consumers
+                    && final(group).total_pending == old(group).total_pending && final(group).consumer_count == old(group).consumer_count)
+            // otherwise every returned entry is pending for the reader (and nobody else), the rest of the pending set is untouched
+            &&& (!noack && out.len() > 0 ==> {
+                    &&& (forall|x: StreamId| #[trigger] final(group).pending.ids().contains_key(x) <==> (old(group).pending.ids().contains_key(x) || ids_of(out).contains(x)))
+                    &&& (forall|x: StreamId| #[trigger] final(group).pending.ids().contains_key(x) ==> (if ids_of(out).contains(x) { final(group).pending.ids()[x].consumer == string_of(consumer_name@) } else { final(group).pending.ids()[x] == old(group).pending.ids()[x] }))
+                    &&& final(group).consumers@.dom() =~= old(group).consumers@.dom().insert(string_of(consumer_name@))
+                })
+        }),
+//@@ body
+//@@ end
+
 } // verus!
 fn main() {}
